@@ -920,6 +920,12 @@ run_tool(int tool, int A, int B, int m, int longp, int numeric, struct fs_result
 	o.timeout_s = 20;
 	++*c_eval;
 	fs_run(exec_main, ac, av, &o, r);
+	if (r->timed_out) {
+		/* busy machine?  once more with ten times the limit before it counts */
+		fs_free(r);
+		o.timeout_s = 200;
+		fs_run(exec_main, ac, av, &o, r);
+	}
 }
 
 static int
